@@ -1210,7 +1210,6 @@ func init() {
 	})
 }
 
-
 // c03LongStream: n values; every Read hands out exactly the rest of one value and the first byte behind it, so that by the next
 // Read the value is complete and followed by a byte. The monitor in Read flags a Read that is issued while the output of a
 // value that was complete by then is not written - for every one of the n values, not only the first few.
